@@ -51,6 +51,8 @@ class Peer(threading.Thread):
                     buf += d
                 head, buf = buf.split(b"\r\n\r\n", 1)
                 self.seen.append(head.decode("latin1"))
+                if b"/slow" in head.split(b"\r\n")[0]:
+                    time.sleep(0.6)
                 if b"/fail503" in head.split(b"\r\n")[0]:
                     c.sendall(b"HTTP/1.1 503 Service Unavailable\r\nContent-Length: 4\r\n\r\nbusy")
                 elif head.startswith(b"CONNECT"):
